@@ -10,7 +10,9 @@ if not os.path.exists(WT):
     subprocess.check_call(['git', '-C', '/repo', 'worktree', 'add', '-q', '--detach', WT, 'HEAD'])
 for spec in sys.argv[3:]:
     seed, props = spec.split(':')
-    cand = [os.path.join(ROOT, 'out-' + seed.split('/')[0], seed.split('/')[1], 'patch.diff'), os.path.join(ROOT, seed.replace('/', ''), 'patch.diff')]
+    cand = [os.path.join(ROOT, seed.replace('/', ''), 'patch.diff')]
+    if '/' in seed:
+        cand.insert(0, os.path.join(ROOT, 'out-' + seed.split('/')[0], seed.split('/')[1], 'patch.diff'))
     patch = [c for c in cand if os.path.exists(c)][0]
     subprocess.call('git checkout -q -- . ; git clean -fdq', shell=True, cwd=WT)
     if subprocess.call(['git', 'apply', patch], cwd=WT) != 0:
